@@ -805,6 +805,10 @@ def run(ctx):
         bad += [(ty, p, ctx.rng.choice(cn[1:])) for (ty, p, _) in ctx.rng.sample(bad, min(len(bad), ctx.scale(300, 20_000)))]
     ctx.check_cases("create.malformed", bad, c07.wrap_skips(ctx, "create.malformed", oracle_create))
     ctx.check_cases("create.sequence", create_sequence_cases(ctx), oracle_create_sequence)
+    import text_entrypoints as te
+    ann, amp = te.cases_c08(ctx)
+    ctx.check_cases("parse.annual-partial-patterns", ann, te.check_annual)
+    ctx.check_cases("parse.empty-am-pm-designators", amp, te.check_emptyampm)
     import texthist
     texthist.run_history(ctx, [("random", ctx.scale(2, 40)), ("culture", ctx.scale(1, 20)), ("width", ctx.scale(1, 20))])
     ctx.check_cases("create.template", create_template_cases(ctx), c07.wrap_skips(ctx, "create.template", oracle_create_template))
@@ -847,7 +851,9 @@ def replay_op(op, failure):
         name = src.split(":", 1)[1]
         case = ast.literal_eval(op)
         fn = {"parse.builtin": oracle_builtin_text, "parse.custom": oracle_custom_text, "create.malformed": oracle_create, "create.template": oracle_create_template, "parse.template": oracle_template_text, "create.sequence": oracle_create_sequence,
-              "text.history": __import__("texthist").oracle_history}[name]
+              "text.history": __import__("texthist").oracle_history,
+              "parse.annual-partial-patterns": __import__("text_entrypoints").check_annual,
+              "parse.empty-am-pm-designators": __import__("text_entrypoints").check_emptyampm}[name]
         r = fn(case)
         return None if (r and "skip" in r) else r
     return c07.oracle_text_op(op.split(" "))
